@@ -49,6 +49,9 @@ fn inner_forms() -> Vec<String> {
     // a substitution as the very first token of the line, and two substitutions next to each other
     v.push("{p} !".to_string());
     v.push("ld {p}{q}".to_string());
+    // the substituted text next to an operator: the argument's TOKENS are spliced in, not its value
+    v.push("ld {q} * 2".to_string());
+    v.push("ld 2 * {q}".to_string());
     v
 }
 
@@ -567,6 +570,28 @@ fn judge_fn_in_rules(c: &(String, String), l: &mut Local) {
     }
 }
 
+/// asm blocks inside user functions: the block sees the FUNCTION's arguments, whatever the calling rule's parameters
+/// are called (expected bytes written down by hand)
+fn judge_fn_with_asm(l: &mut Local) {
+    let cases: Vec<(&str, Vec<u8>)> = vec![
+        ("#ruledef\n{\n    emit {x: u8} => x\n    pair {v: u8} => twice(v + 1)\n}\n#fn twice(v) => asm { emit {v} } @ asm { emit {v} }\npair 4\n", vec![5, 5]),
+        ("#ruledef\n{\n    emit {x: u8} => x\n    pair {w: u8} => twice(w + 1)\n}\n#fn twice(v) => asm { emit {v} } @ asm { emit {v} }\npair 4\n", vec![5, 5]),
+        ("#ruledef\n{\n    emit {x: u8} => x\n    pair {v: u8} => both(v, v + 2)\n}\n#fn both(a, v) => asm { emit {a} } @ asm { emit {v} }\npair 4\n", vec![4, 6]),
+        ("#ruledef\n{\n    emit {x: u8} => x\n}\n#fn twice(v) => asm { emit {v} } @ asm { emit {v} }\n#d twice(7)\nk = twice(8)\n#d k\n", vec![7, 7, 8, 8]),
+    ];
+    for (src, want) in cases {
+        l.eval();
+        l.nontrivial(&src);
+        l.class("function-with-asm-block");
+        let o = run::assemble_str(src, &Opts::default());
+        let bits: String = want.iter().map(|b| format!("{:08b}", b)).collect();
+        l.traces_validated += 1;
+        if o.panicked.is_some() || !o.success() || o.bits != bits {
+            l.violation(Violation { property: ID, key: "C17:function-with-asm-block".into(), what: format!("a function whose body contains asm blocks does not equal its body with the arguments bound: {} (expected {:02x?})", src.replace('\n', " / "), want), case: json!({"family": "function-with-asm", "program": src, "expected_bytes": want, "observed": o.summary()}) });
+        }
+    }
+}
+
 fn judge_recursion(l: &mut Local) {
     // f(n) = n == 0 ? 0 : f(n-1) + 1 : value n or a clean error; once an error, always an error
     let mut failed_at: Option<usize> = None;
@@ -599,7 +624,7 @@ fn judge_recursion(l: &mut Local) {
         }
     }
     // unbounded recursion through a function and through an asm rule are errors, not crashes
-    for src in ["#fn f(n) => f(n + 1)\nx = f(0)\n", "#ruledef\n{\n    spin {x} => asm { spin {x} + 1 }\n}\nspin 0\n", "#ruledef\n{\n    ping => 0x11 @ asm { pong }\n    pong => 0x22 @ asm { ping }\n}\nping\n"] {
+    for src in ["#ruledef\n{\n    spin {x} => asm { spin {x} + 1 }\n}\n#d asm { spin 0 }\n", "#ruledef\n{\n    spin {x} => asm { spin {x} + 1 }\n}\nv = asm { spin 0 }\n#d8 v\n", "#ruledef\n{\n    ping => 0x11 @ asm { pong }\n    pong => 0x22 @ asm { ping }\n}\n#d asm { ping }\n", "#fn f(n) => f(n + 1)\nx = f(0)\n", "#ruledef\n{\n    spin {x} => asm { spin {x} + 1 }\n}\nspin 0\n", "#ruledef\n{\n    ping => 0x11 @ asm { pong }\n    pong => 0x22 @ asm { ping }\n}\nping\n"] {
         l.eval();
         let o = run::assemble_str(src, &Opts::default());
         l.nontrivial(src);
@@ -718,6 +743,7 @@ pub fn run(ctx: &Ctx) -> Report {
     let fir = fn_in_rules_cases();
     rep.absorb(par_cases(&fir, judge_fn_in_rules));
     let mut l = Local::new();
+    judge_fn_with_asm(&mut l);
     judge_recursion(&mut l);
     rep.absorb(l);
     rep.extra("inner_forms", json!(nf));
